@@ -39,6 +39,10 @@ def _run_task(args):
         if task.get("configure"):
             conf = getattr(importlib.import_module(task["module"]), task["configure"])
         if task["kind"] == "contract":
+            if "variant" in task:
+                import copy
+                inst = copy.copy(inst)
+                inst._only_variant = task["variant"]
             conf_small = None
             if task.get("configure_small"):
                 conf_small = getattr(importlib.import_module(task["module"]), task["configure_small"])
@@ -63,6 +67,8 @@ def _run_task(args):
                "error": {"type": "crash", "msg": f"{type(e).__name__}: {e}", "tb": traceback.format_exc()}}
     out["module"] = task["module"]
     out["name"] = task["name"]
+    if "variant" in task:
+        out["variant"] = task["variant"]
     out.setdefault("secs", round(time.time() - t0, 3))
     return out
 
@@ -121,7 +127,7 @@ def check(prop, tier, seed):
             continue
         info = out.get("info", {})
         if out["kind"] == "contract":
-            functions.append({**out.get("source", {}), "contract": f"{out['module']}.{out['name']}",
+            functions.append({**out.get("source", {}), "contract": f"{out['module']}.{out['name']}" + (f"[variant {out['variant']}]" if "variant" in out else ""),
                               "paths": info.get("paths"), "obligations": len(out["results"])})
             if info.get("requires_sat") is False:
                 vacuity.append(f"{out['task']}: precondition unsatisfiable")
